@@ -134,6 +134,11 @@ add("C15", "E3-history-bfs", "model_checking",
     "Bound: 3 tuple keys (one conditioned), depth 4 (6 in thorough). Memory horizon straddling is decided only when the read demonstrably fell inside the bracket (wall clock); SQLite's clock cannot be bracketed. Single-writer processes (ULID order under concurrent writers is a known finding).",
     "explicit-state search over operation histories on the real datastores, replay-equals-state oracle")
 
+add("C09", "E3-history-bfs", "fault_enumeration",
+    "For every world and request pair <q1,q2>: q1 runs with the iterator caches and shared iterators on while the request context is cancelled at the k-th datastore operation (read call or iterator Next/Head) for EVERY k, and again with a non-cancellation error injected at every k; background drains are awaited; then every q2 runs undisturbed and must answer like the reference or the cache-less server: a partially read result is never served as complete.",
+    "Bound: every 30th r0-signature class without conditions in quick (every 3rd in thorough), <=2 tuples, Check on every node + two ListObjects as q1 and q2, default and weighted-graph/pipeline engines, fresh server per world. Trusted: fault-injecting datastore wrapper (h/dsx), map-backed cache (h/cachex). Interleavings of drain vs concurrent reader: C23's scheduler harness.",
+    "exhaustive fault-point enumeration (cancel / error at every datastore operation of the first request) on the real server, differential + reference oracle on the following requests")
+
 NOT_BUILT ="check not built yet in this session; see DESIGN.md §5 for the planned decision procedure"
 NA = {}
 
